@@ -145,3 +145,23 @@ pub enum TlsConfigError {
         source: rustls::Error,
     },
 }
+
+/// Verification hooks: the verifier and resolver objects held by a [`TlsConfig`].
+#[cfg(feature = "verif-hooks")]
+impl TlsConfig {
+    pub(crate) fn verif_server_verifier(
+        &self,
+    ) -> Arc<dyn rustls::client::danger::ServerCertVerifier> {
+        self.server_verifier.clone()
+    }
+
+    pub(crate) fn verif_client_verifier(
+        &self,
+    ) -> Arc<dyn rustls::server::danger::ClientCertVerifier> {
+        self.client_verifier.clone()
+    }
+
+    pub(crate) fn verif_cert_resolver(&self) -> Arc<dyn rustls::client::ResolvesClientCert> {
+        self.cert_resolver.clone()
+    }
+}
